@@ -20,6 +20,16 @@ RULES = {
 }
 
 
+def _first_arg(call: ast.Call, name: str):
+    """the first parameter of a call, passed by position or by keyword"""
+    if call.args:
+        return call.args[0]
+    for k in call.keywords:
+        if k.arg == name:
+            return k.value
+    return ast.Constant(value=None)
+
+
 def run(chk):
     for k, v in RULES.items():
         chk.rule(k, v)
@@ -38,7 +48,7 @@ def run(chk):
         notnone = f.get("self.qweight is None")
         site = f"{mi.rel}:{p.end[2]}"
         if notnone is False:
-            ok = len(stores) == 1 and stores[0][0] == "store" and U(stores[0][1]) == "self" and stores[0][2] == "weight" and isinstance(stores[0][3], ast.Call) and U(stores[0][3].func) == "torch.nn.Parameter" and U(stores[0][3].args[0]) == "self.qweight"
+            ok = len(stores) == 1 and stores[0][0] == "store" and U(stores[0][1]) == "self" and stores[0][2] == "weight" and isinstance(stores[0][3], ast.Call) and U(stores[0][3].func) == "torch.nn.Parameter" and U(_first_arg(stores[0][3], "data")) == "self.qweight"
             chk.require("C09.R1", site, ok and not others, f"freeze (weights quantized): self.weight = Parameter(self.qweight) and nothing else ({[U(s[3])[:60] if s[0]=='store' else s[0] for s in stores]})", "QModuleMixin.freeze", "freeze assignment", "freeze(): the stored weight is not the quantized weight the dynamic path computes")
         elif notnone is True:
             chk.require("C09.R1", site, not stores and not others, "freeze (weights not quantized): nothing is written", "QModuleMixin.freeze", "freeze no-op", "freeze() of a module that does not quantize its weights alters it")
